@@ -85,20 +85,12 @@ func genC06(t *rapid.T) c06Case {
 	return c
 }
 
-func runC06(c c06Case) (r pbt.Result) {
-	w := sim.NewWorld(c.Cfg, c.RPCs)
-	defer func() {
-		if leaks := w.Drain(); len(leaks) > 0 && r.Fail == "" {
-			r.Detailf("note: %d drpc goroutines alive after teardown", len(leaks))
-		}
-	}()
-	fail := func(f string, a ...any) {
-		r.Fail = fmt.Sprintf(f, a...)
-		r.Detail = w.Dump()
-	}
+// execPrograms runs the generated client/handler programs of a case under its drawn schedule
+// and leaves the world flushed. It is shared by the C06 and C02 oracles.
+func execPrograms(c c06Case) (w *sim.World, forced int, undelivered bool) {
+	w = sim.NewWorld(c.Cfg, c.RPCs)
 	choices := append([]int(nil), c.Choices...)
-	steps, forced := 0, 0
-	undelivered := false
+	steps := 0
 	finish := func(k int) {
 		name := fmt.Sprintf("c%d", k)
 		if w.A.Out().Queued() > 0 || w.B.Out().Queued() > 0 || w.A.Out().CanAccept() || w.B.Out().CanAccept() {
@@ -164,6 +156,21 @@ func runC06(c c06Case) (r pbt.Result) {
 			}
 			finish(k)
 		}
+	}
+	w.Flush(sim.Filter{Coarse: true})
+	return
+}
+
+func runC06(c c06Case) (r pbt.Result) {
+	w, forced, undelivered := execPrograms(c)
+	defer func() {
+		if leaks := w.Drain(); len(leaks) > 0 && r.Fail == "" {
+			r.Detailf("note: %d drpc goroutines alive after teardown", len(leaks))
+		}
+	}()
+	fail := func(f string, a ...any) {
+		r.Fail = fmt.Sprintf(f, a...)
+		r.Detail = w.Dump()
 	}
 	w.Flush(sim.Filter{Coarse: true})
 	if v := w.Violations(); len(v) > 0 {
